@@ -1338,7 +1338,7 @@ class ValueOutput(Value):
         return hash("output")
 
     def __eq__(self, other):
-        return other == self
+        return self is other
 
     def __lt__(self, other):
         return str(self) < str(other)
